@@ -112,13 +112,16 @@ def run_case(case):
     viols, errs = [], {}
     evals = [0]
     rs = cm.rshells(shells)
+    rkind = cm.REPS[(len(case["dm"]) + len(pts)) % len(cm.REPS)]  # representation / dtype of the array arguments
+    pts = cm.rep_values(pts, rkind)
+    if T is not None:
+        T = cm.rep_values(T, rkind, scale=2.0)
     R = Ref(rs, pts, T)
-    rkind = cm.REPS[(len(case["dm"]) + len(pts)) % len(cm.REPS)]  # in-memory representation of the array arguments
-    kw = {} if T is None else {"transform": cm.rep(T, rkind)}
+    kw = {} if T is None else {"transform": cm.rep_typed(T, rkind)}
     N = len(pts)
     dm_in = dm
-    dm = cm.rep(dm_in, rkind)
-    pts = cm.rep(pts, rkind)
+    dm = cm.rep(dm_in, rkind if rkind not in ("int", "f32") else "c")  # the density matrix must be float64 (documented)
+    pts = cm.rep_typed(pts, rkind)
 
     def chk(out, ref, sc, what, qty, **k):
         evals[0] += 1
@@ -257,7 +260,7 @@ def run_case(case):
                 elif isinstance(out, np.ndarray) and out.size and float(out.min()) < 0:
                     viols.append(cm.viol("%s returned a negative value %.3e for a PSD density matrix" % (name, out.min()), name + "_psd_negative"))
     nontrivial = "dm:zero" not in case["classes"] and any(s["l"] >= 1 for s in shells) and any(sum(o) >= 1 for o in case["orders"])
-    return {"evals": evals[0], "nontrivial": bool(nontrivial), "classes": case.get("classes", []), "errs": errs, "violations": viols}
+    return {"evals": evals[0], "nontrivial": bool(nontrivial), "classes": case.get("classes", []) + ["rep:" + rkind], "errs": errs, "violations": viols}
 
 
 def classify(case, v):
